@@ -98,6 +98,44 @@ def delegate_kwargs(prog: Program, ev: PEvent) -> dict[str, Any]:
     return out
 
 
+_NOISE = {"on", "fn", "hook", "cb", "callback", "func"}
+
+
+def _tokens(name: str) -> frozenset[str]:
+    return frozenset(t for t in name.lower().strip("_").split("_") if t and t not in _NOISE)
+
+
+def _ann(fi: FuncInfo | None, pname: str) -> str | None:
+    if fi is None:
+        return None
+    for a in fi.params():
+        if a.arg == pname:
+            return ast.unparse(a.annotation).replace(" ", "") if a.annotation is not None else None
+    return None
+
+
+def canonical_keyword(k: str, ev: PEvent, wrapper: FuncInfo, wrapper_params: list[str], renames: dict[str, str]) -> str:
+    """the wrapper parameter a delegate keyword stands for.  Parameter names of the private runner layers are
+    free: an unknown keyword is matched to the one wrapper parameter (or frozen rename) whose name tokens it
+    contains (`before_sleep_hook` ~ before_sleep, `sleeper_fn` ~ sleeper) and whose annotation it shares."""
+    if k in renames or k in wrapper_params:
+        return renames.get(k, k)
+    delegate = next((t.func for t in ev.targets if t.func is not None), None)
+    cands = []
+    names = dict.fromkeys(list(wrapper_params) + list(renames.values()))
+    for c in names:
+        tc, tk = _tokens(c), _tokens(k)
+        if tc and tc <= tk:
+            a1, a2 = _ann(delegate, k), _ann(wrapper, c)
+            if a1 is None or a2 is None or a1 == a2:
+                cands.append((len(tc), c))
+    if not cands:
+        return k
+    best = max(n for n, _ in cands)
+    top = [c for n, c in cands if n == best]
+    return top[0] if len(top) == 1 else k
+
+
 def check_forward(rep: Report, prog: Program, wrapper: FuncInfo, pred, wrapper_params: list[str], renames: dict[str, str], label: str, required_kw: list[str] | None = None, paths=None) -> None:
     rep.analysed(wrapper.qual)
     ps = paths if paths is not None else engine(prog).paths(wrapper)
@@ -112,7 +150,7 @@ def check_forward(rep: Report, prog: Program, wrapper: FuncInfo, pred, wrapper_p
             for k, v in kw.items():
                 if k.startswith("#") or k == "**":
                     continue
-                want = renames.get(k, k)
+                want = canonical_keyword(k, e, wrapper, wrapper_params, renames)
                 src = sources(v, p)
                 seen_sources |= src
                 if k == "func" and v[0] == "lambda":
@@ -134,7 +172,8 @@ def check_forward(rep: Report, prog: Program, wrapper: FuncInfo, pred, wrapper_p
                 else:
                     rep.fail("R12.3", f"{construct}|crossed", f"{wrapper.qual}: delegate keyword `{k}` receives {show(v)[:80]} instead of `{want}`", where=f"{wrapper.module.relpath}:{e.lineno}", function=wrapper.qual)
             if required_kw is not None:
-                missing = [k for k in required_kw if k not in kw]
+                have = {canonical_keyword(k, e, wrapper, wrapper_params, renames) for k in kw}
+                missing = [k for k in required_kw if k not in kw and renames.get(k, k) not in have]
                 rep.instance("R12.3", f"{label}|{wrapper.qual.split(':')[1]}|required")
                 if missing:
                     rep.fail("R12.3", f"{label}|{wrapper.qual.split(':')[1]}|dropped|{missing[0]}", f"{wrapper.qual}: keyword(s) {missing} are not forwarded to the delegate", where=f"{wrapper.module.relpath}:{e.lineno}", function=wrapper.qual)
@@ -249,7 +288,7 @@ TWIN_CLASSES = [
 ]
 # declared, reasoned asymmetries (string normalisation applied to both sides)
 NORMALISE = [
-    (r"#\d+", ""),  # event numbering
+    (r"#\([\d, ]+\)", ""), (r"#\d+", ""),  # event numbering (tuples inside inlined helpers)
     (r"async_", "sync_"), (r"Async", ""), (r"retry_sync", "retry_X"), (r"retry_async", "retry_X"), (r"sync_policy", "policy"),
     (r"redress\.policy\.policy", "redress.policy.P"), (r"redress\.policy\.async_policy", "redress.policy.P"),
     (r"redress\.policy\.sync_policy", "redress.policy.P"),
